@@ -8,7 +8,7 @@ OUT=${SWEEP_OUT:-$ROOT/build/benign_results.txt}
 mkdir -p $(dirname $OUT); : > $OUT
 for pf in $ROOT/benign/*.diff; do
   rm -rf $S; mkdir -p $S
-  (cd /repo && git archive HEAD | tar -x -C $S)
+  (cd /repo && git archive HEAD | tar -x -C $S); cp /repo/Cargo.lock $S/ 2>/dev/null
   (cd $S && git init -q . && git apply $pf) || { echo "$(basename $pf) APPLY-FAILED" >> $OUT; continue; }
   for p in $PROPS; do
     VERIF_REPO=$S $ROOT/check $p > /var/tmp/benign_last_$$.log 2>&1
